@@ -129,6 +129,8 @@ SET_MENU = [
     # values the command line converts to something falsy, and non-finite numbers
     ("log_level", "false"), ("log_level", "0"), ("log_level", ""), ("output_format", "false"), ("output_format", "0.0"), ("output_format", ""),
     ("timeout", "inf"), ("timeout", "nan"), ("max_retries", "0"), ("max_retries", "true"),
+    # the same settings spelled with a hyphen (the loader reads both spellings as one key)
+    ("log-level", "DEBUG"), ("log-level", "bogus"), ("output-format", "xml"), ("output-format", "json"), ("max-retries", "-1"), ("app-name", ""), ("new-key", "v2"),
 ]
 
 # the documented domains of the two enumerated settings (the tool's own error messages name them;
@@ -307,6 +309,8 @@ def t_set(acc: Acc, root, key: str, value: str, hist):
     # accepted: echoed value
     out = r["stdout"]
     pref = f"Set {key} = "
+    if not out.startswith(pref) and out.startswith(f"Set {key.replace('-', '_')} = "):
+        pref = f"Set {key.replace('-', '_')} = "  # the setting's stored spelling
     if not out.startswith(pref):
         acc.fail({"inv": "set-echo", **sig_v}, case, pref + "<value>", out[:200])
         return r
@@ -325,13 +329,14 @@ def t_set(acc: Acc, root, key: str, value: str, hist):
         ok, errs = validate_config(cfg)
         if not ok:
             acc.fail({"inv": "written-config-valid", **sig_v}, case, "valid", errs)
-        v0 = cfg.get(key)
-        if key in DOMAIN and not DOMAIN[key](v0):
-            acc.fail({"inv": "accepted-value-outside-documented-domain", "key": key, "value_class": "falsy" if not v0 else ("non-finite" if isinstance(v0, float) else "other")}, case, f"a documented value for {key}", repr(v0))
+        v0 = cfg.get(key, cfg.get(key.replace("-", "_")))
+        dkey = key.replace("-", "_")
+        if dkey in DOMAIN and not DOMAIN[dkey](v0):
+            acc.fail({"inv": "accepted-value-outside-documented-domain", "key": dkey, "spelling": "hyphen" if "-" in key else "underscore", "value_class": "falsy" if not v0 else ("non-finite" if isinstance(v0, float) else "other")}, case, f"a documented value for {key}", repr(v0))
         for ext in (".yaml", ".json"):
             tmp = root / f"rt{ext}"
             save_config(cfg, tmp)
-            v1 = load_config(tmp).get(key)
+            v1 = load_config(tmp).get(key, load_config(tmp).get(key.replace("-", "_")))
             tmp.unlink()
             acc.edge()
             if not _same(v0, v1):
